@@ -29,6 +29,9 @@ pub struct SweepCfg {
     pub kinds: String,
     /// C11: an object whose storage differs from its re-wrap (state above bit N-1) is a violation
     pub strict_storage: bool,
+    /// C16 on declarations whose values no property determines (range lists naming a bit twice): no value oracle, only
+    /// panics, set_ vs with_ agreement and the observation digest
+    pub panic_only: bool,
 }
 
 pub enum StateSet {
@@ -114,6 +117,7 @@ struct Ctx<'a> {
     do_get: bool,
     do_put: bool,
     strict_storage: bool,
+    panic_only: bool,
 }
 
 /// One (idx, state) batch, executed without any catch_unwind inside. Returns mismatches as
@@ -244,6 +248,9 @@ fn batch(
         }
     }
     r.digest = h;
+    if c.panic_only {
+        out.retain(|x| x.0 == "set_vs_with");
+    }
 }
 
 /// Re-run a batch step by step to find which call panics.
@@ -303,8 +310,9 @@ fn sweep_item(c: &Ctx, cfg: &SweepCfg, start: &Instant, stop: &AtomicBool) -> It
         for idx in 0..cnt {
             let pos = positions(f, idx);
             let seg = Seg::new(f, idx);
-            // start-up self check of the fast path against the bit-at-a-time reference
-            {
+            // start-up self check of the fast path against the bit-at-a-time reference (not for panic-only runs: the reference
+            // value of a list that names a bit twice is not defined and is not used there)
+            if !cfg.panic_only {
                 let a = alpha(ms.n);
                 let av = alpha(f.w);
                 if let Err(e) = seg.self_check(&pos, &a, &av) {
@@ -491,7 +499,7 @@ pub fn sweep(machines: &[(&dyn Machine, &MachineSpec)], cfg: &SweepCfg) -> Repor
                 }
                 let (mi, fi) = items[i];
                 let (m, ms) = machines[mi];
-                let c = Ctx { m, ms, fi, f: &ms.fields[fi], do_get, do_put, strict_storage: cfg.strict_storage };
+                let c = Ctx { m, ms, fi, f: &ms.fields[fi], do_get, do_put, strict_storage: cfg.strict_storage, panic_only: cfg.panic_only };
                 let r = sweep_item(&c, cfg, &start, &stop);
                 *results[i].lock().unwrap() = Some(r);
             });
